@@ -373,7 +373,18 @@ int main(int argc, char** argv) {
                     auto meshes = r.read();
                     auto types = r.get_cell_types();
                     o.key("ok").b(true).key("ncells").i(meshes.size()).key("types").iarr(types);
-                } catch (std::exception& e) { o.key("ok").b(false).key("ncells").i(-1).key("types").arr().end_arr().key("err").str(e.what()); }
+                    // which cells the pair of files says it describes: the cell_id array of the cell-data file, and the runs of the
+                    // face_cell_id array of the face-data file (tokens of the files themselves, not the writer's arguments)
+                    auto field = [&](const std::string& path, const std::string& name) {
+                        std::vector<long> v; std::ifstream f(path); std::string tok;
+                        while (f >> tok) if (tok == name) { long one = 0, cnt = 0; std::string ty; if (!(f >> one >> cnt >> ty)) break; for (long q = 0; q < cnt; q++) { double x; if (!(f >> x)) break; v.push_back((long)std::llround(x)); } break; }
+                        return v;
+                    };
+                    auto cid = field(gp.output_folder_path_ + "/cell_data/result_" + std::to_string(n) + ".vtk", "cell_id");
+                    auto fid = field(gp.output_folder_path_ + "/face_data/result_" + std::to_string(n) + ".vtk", "face_cell_id");
+                    std::vector<long> runs; for (long x : fid) if (runs.empty() || runs.back() != x) runs.push_back(x);
+                    o.key("cell_ids").iarr(cid).key("face_ids").iarr(runs);
+                } catch (std::exception& e) { o.key("ok").b(false).key("ncells").i(-1).key("types").arr().end_arr().key("cell_ids").arr().end_arr().key("face_ids").arr().end_arr().key("err").str(e.what()); }
                 o.end_obj();
             }
         }
